@@ -42,12 +42,13 @@ import (
 type libSrv struct {
 	*srv
 	repo server.Repository
+	keep []*ach.File // every object ever seen in the store stays reachable: "%p" identifies it for the whole history
 }
 
 func newLibSrv(p *pools) *libSrv {
 	repo := server.NewRepositoryInMemory(0, nil)
 	svc := server.NewService(repo)
-	return &libSrv{&srv{h: server.MakeHTTPHandler(svc, repo, kitlog.NewNopLogger()), p: p, ren: map[string]string{}, known: map[string]bool{}}, repo}
+	return &libSrv{srv: &srv{h: server.MakeHTTPHandler(svc, repo, kitlog.NewNopLogger()), p: p, ren: map[string]string{}, known: map[string]bool{}}, repo: repo}
 }
 
 // photo of one stored object: flat map path -> value, of the JSON tree and of the record lines
@@ -192,6 +193,7 @@ func (s *libSrv) photos() map[string]photo {
 		if f == nil {
 			continue
 		}
+		s.keep = append(s.keep, f)
 		out[fmt.Sprintf("%p", f)] = takePhoto(f)
 	}
 	return out
